@@ -23,6 +23,11 @@ SPEC = {
         "cause, each a listed known finding; three further root causes were repaired in /repo and their witnesses are kept "
         "as theorems about the model at the old fact values (C16_old_*). The statement / builtin layer of the two evaluators "
         "(Model/AspInterp.lean, Model/PyInterp.lean) is tied to the real interpreter and to python3 only by correspondence; "
+        "sorted(key=, reverse=) is modelled in both interpreters: C16_sort_agrees - the asp model's sort (Go's insertion sort, "
+        "front to back) and the reference's stable sort compute the same function for all lists and every strict weak order "
+        "on the keys, also with the comparison flipped (reverse=True: tied elements keep their original order); sorting "
+        "ascending and reversing afterwards is a different function (C16_reverse_after_differs, "
+        "C16_witness_sorted_reverse_after at the fact sortedReverse = reverse-after). "
         "at program level: C16_program_int_partial, by structural induction over programs (Lemmas/AspIntProgram.lean) - for "
         "EVERY integer program (x = e)* with e ::= n | x | (e) | e op e, op in + - * // %, any number of statements, any "
         "nesting depth, names referring to earlier assignments, whenever the mathematical meaning is defined (literals the "
@@ -35,7 +40,7 @@ SPEC = {
     ),
     "technique": "Lean proofs about a transcription of interpretOps + differential three-way tie (asp, Lean asp model, Lean Python reference, python3) with repair-based classification of disagreements",
     "trusted": [
-        "go/ast extractor harness/extract/c16 (Precedence() table, Lazy(), operators map, pyInt.Operator cases incl. the bodies of the helpers floorDiv/floorMod, list +, Freeze, sorted/reversed, Constant(), interpretSlice, shape of interpretOps: comparison, recursion on ops[1:], hand-back to interpretOp)",
+        "go/ast extractor harness/extract/c16 (Precedence() table, Lazy(), operators map, pyInt.Operator cases incl. the bodies of the helpers floorDiv/floorMod, list +, Freeze, sorted/reversed, how sorted honours reverse= (comparator flipped vs. slices.Reverse afterwards) and which sort function it calls, Constant(), interpretSlice, shape of interpretOps: comparison, recursion on ops[1:], hand-back to interpretOp)",
         "correspondence harness/cmd/c16: real asp (hook EvalForVerif, package files and subincluded files) vs Driver/C16.lean; python3 vs the Lean Python reference",
         "python3 (CPython on this machine) as the meaning of 'Python'; range/zip/enumerate/reversed/map/filter wrapped to return lists",
         "modelled, not verified: Model/AspEval.lean, AspInterp.lean (asp as it is: Go slices, constant pool, Go integer semantics), Model/PyRef.lean, PyInterp.lean (reference)",
@@ -46,7 +51,9 @@ SPEC = {
         "comparison chaining (a < b < c) is a Python form the BUILD grammar does not have and is not generated",
         "programs on which python3 raises are outside the subset; programs on which asp raises are not covered by the statement",
         "float64 conversion of NaN/Inf/out-of-range values is the amd64 one (-2^63); only relevant for the old // code path (mutation runs)",
-        "string % formatting, format(), f-strings, str() of containers, sorted(key=), non-ASCII upper/lower/slices: direct oracle only where generated, not modelled",
+        "string % formatting, format(), f-strings, str() of containers, min/max(key=), non-ASCII upper/lower/slices: direct oracle only where generated, not modelled",
+        "sorted with a key function on more than 12 elements: sort.Slice is not stable there (known finding sorted-not-stable-beyond-12); the model does not follow pdqsort, such programs go to the direct oracle only",
+        "dict literals are generated in sorted key order (asp dicts iterate in sorted order, Python's in insertion order)",
     ],
 }
 
@@ -63,6 +70,8 @@ Dry-runs on a scratch copy (VERIF_REPO=/var/tmp/mC16, ./check C16 quick), all co
  M9  objects.go  pyDict.Keys(): sort dropped                   RED  rendered dict order / d.keys() differ from python
  M10 objects.go  pyInt <=  ->  <                               RED  concrete program (g5 false vs true)
  M7  interpreter.go rename local nobj -> rhs in interpretOps   GREEN (harmless)
+ S2  round-2 seed: builtins.go sorted always sorts ascending and calls slices.Reverse for reverse=True   first version of the check MISSED it (sorted(key=) was oracle-only and
+     hardly generated); after modelling key=/reverse=, the facts sortedReverse/sortedSortFns and the sorted-key generator: RED, see the VIOLATION line in the commit message
 After the three repairs in /repo (fix: commits ec296ec, 04757e8, 95d3a82), the re-introducing mutations (scratch copies, ./check C16 quick):
  R1  objects.go  floorMod(i, o) -> i % o                       RED  VIOLATION violation-int-mod-go-sign.json (concrete program, class no longer known);
                                                                    facts intOps Modulo |-> "%", 4 theorems no longer check; model follows: 0 disagreements
